@@ -16,6 +16,9 @@ structure Cfg where
   precision : Int := -1     -- as passed to setRoundingPrecision (values < -1 are clamped to -1 by the setter)
   outDim : Nat := 4         -- 2, 3 or 4
   old3D : Bool := false
+  /-- `getMaximumSignificantDigits()` of the written geometry's precision model (16 for the default floating model;
+  `ceil(log10 scale)` resp. `floor` for a fixed one — may be negative); only read when `precision = -1` -/
+  pmDigits : Int := 16
 deriving Repr, DecidableEq
 
 inductive Tok where
@@ -216,7 +219,7 @@ def writeToks (cfg : Cfg) (g : G) : List Tok := tagged cfg g
 
 /-- `decimalPlaces` as used by `writeNumber(d)`: `roundingPrecision == -1` → the precision model's
 `getMaximumSignificantDigits()` (16 for the default floating model), and negative → 0 -/
-def decimalPlaces (cfg : Cfg) : Nat := if cfg.precision = -1 then 16 else cfg.precision.toNat
+def decimalPlaces (cfg : Cfg) : Nat := if cfg.precision = -1 then cfg.pmDigits.toNat else cfg.precision.toNat
 
 def tokStr (cfg : Cfg) : Tok → List Char
   | .word s => s.toList
